@@ -47,6 +47,33 @@ lemma rejection_accepted_mass' (μ : Measure α) [SFinite μ] (eb : α → ℝ) 
       ext u; simp [ht]
     rw [this, measure_empty, indicator_of_notMem ht]
 
+lemma unif01_Iio_min (c : ℝ) : unif01 (Iio c) = ENNReal.ofReal (min c 1) := by
+  unfold unif01
+  rw [Measure.restrict_apply measurableSet_Iio]
+  have : Iio c ∩ Ico 0 1 = Ico 0 (min c 1) := by
+    ext u
+    simp only [mem_inter_iff, mem_Iio, mem_Ico, lt_min_iff]
+    constructor
+    · rintro ⟨h1, h2, h3⟩; exact ⟨h2, h1, h3⟩
+    · rintro ⟨h1, h2, h3⟩; exact ⟨h2, h1, h3⟩
+  rw [this, Real.volume_Ico, sub_zero]
+
+lemma rejection_accepted_mass_capped' (μ : Measure α) [SFinite μ] (eb : α → ℝ) (heb : Measurable eb)
+    (S : Set α) (hS : MeasurableSet S) :
+    (μ.prod unif01) {p | p.1 ∈ S ∧ p.2 < eb p.1} = ∫⁻ t in S, ENNReal.ofReal (min (eb t) 1) ∂μ := by
+  have hmeas : MeasurableSet {p : α × ℝ | p.1 ∈ S ∧ p.2 < eb p.1} :=
+    (measurable_fst hS).inter (measurableSet_accept eb heb)
+  rw [Measure.prod_apply hmeas, ← lintegral_indicator hS]
+  congr 1
+  ext t
+  by_cases ht : t ∈ S
+  · have : Prod.mk t ⁻¹' {p : α × ℝ | p.1 ∈ S ∧ p.2 < eb p.1} = Iio (eb t) := by
+      ext u; simp [ht]
+    rw [this, unif01_Iio_min, indicator_of_mem ht]
+  · have : Prod.mk t ⁻¹' {p : α × ℝ | p.1 ∈ S ∧ p.2 < eb p.1} = ∅ := by
+      ext u; simp [ht]
+    rw [this, measure_empty, indicator_of_notMem ht]
+
 lemma rejection_accepted_law' (lam : Measure α) [SFinite lam] (g f eb : α → ℝ) (c : ℝ) (hc : 0 ≤ c)
     (hg : Measurable g) (heb : Measurable eb) (h0 : ∀ t, 0 ≤ eb t) (h1 : ∀ t, eb t ≤ 1)
     (hg0 : ∀ t, 0 ≤ g t) (hid : ∀ t, g t * eb t = c * f t) :
